@@ -177,7 +177,8 @@ impl Envelope {
         let mut result: HashMap<u16, Vec<SSKRShare>> = HashMap::new();
         for envelope in envelopes {
             for assertion in envelope.assertions_with_predicate(known_values::SSKR_SHARE) {
-                let share = assertion.as_object().unwrap().extract_subject::<SSKRShare>()?;
+                // The assertion may carry assertions of its own (e.g. salt).
+                let share = assertion.subject().as_object().unwrap().extract_subject::<SSKRShare>()?;
                 let identifier = share.identifier();
                 result.entry(identifier).and_modify(|shares| shares.push(share.clone())).or_insert(vec![share]);
             }
